@@ -286,6 +286,12 @@ class Session:
         st["op:" + op["op"]] = st.get("op:" + op["op"], 0) + 1
         if line["impl"]["exc"] != "ok":
             st["exc:" + line["impl"]["exc"]] = st.get("exc:" + line["impl"]["exc"], 0) + 1
+        if line["impl"].get("internal_keyerror") and op["op"] in ("set", "setexpr", "iop"):
+            # an assignment that dies on a task / location missing from the manager's own tables: none of the tasks it
+            # should run has run (C02), the dependants are stale (C01), and a removed definition left a trace (C03)
+            for prop in ("C01", "C02", "C03", "C17", "C18"):
+                self.fail(prop, "assignment-fails-on-the-managers-own-tables",
+                          {"op": {k: v for k, v in op.items() if not k.startswith("_")}, "missing": line["impl"]["internal_keyerror"]})
         return line
 
     def fail(self, prop, kind, detail, known=None):
@@ -810,6 +816,14 @@ def draw(rng, g, sess, kind, pick):
         for _ in range(rng.randint(1, 3)):
             q = pick(True)
             pairs.append([q, g.term(q)])
+        exprdefs = [d for d in mirror.defs.values() if d[0] == "expr"]
+        if exprdefs and rng.random() < 0.35:
+            # a pair that re-defines an existing target by an expression over exactly the same locations (the reloaded
+            # dump, or the same reads combined differently): same edges in the graph, another definition
+            d = rng.choice(exprdefs)
+            same_reads = rng.choice([d[2], ["bin", "Add", d[2], ["lit", rng.randint(1, 3)]], ["un", "Neg", d[2]]])
+            pairs[rng.randrange(len(pairs))] = [d[1], same_reads]
+            return {"op": "load", "overwrite": rng.random() < 0.9, "pairs": pairs}
         return {"op": "load", "overwrite": rng.random() < 0.7, "pairs": pairs}
     if kind == "query":
         return {"op": "query", "path": rng.choice(P + [["d", ["i", "n"]]] if g.nested else P)}
